@@ -39,6 +39,26 @@ fn guarded<T>(f: impl FnOnce() -> T) -> Result<T, String> {
 /// the passes of `pipeline::compile`, one by one; `upto_mono` stops after monomorphisation
 pub fn run_stages(path: &Path, src: &str, upto_mono: bool) -> Staged {
     let mut st = Staged { genv: None, core: None, mono: None, lift: None, anf: None, go_ok: false, stop: None };
+    if !upto_mono {
+        // the real entry point first (multi-package programs are linked there); the pass-by-pass run
+        // below is only needed to keep the earlier stages when a later pass panics
+        match guarded(|| pipeline::compile(path, src)) {
+            Ok(Ok(c)) => {
+                st.genv = Some(c.genv.clone());
+                st.core = Some(c.core.clone());
+                st.mono = Some((c.mono.clone(), c.monoenv.clone()));
+                st.lift = Some((c.lambda.clone(), c.liftenv.clone()));
+                st.anf = Some((c.anf.clone(), c.anfenv.clone()));
+                st.go_ok = true;
+                return st;
+            }
+            Ok(Err(e)) => {
+                st.stop = Some(("reject", util::stage_of(&e), e.diagnostics().iter().map(|d| d.message().to_string()).collect::<Vec<_>>().join(" | ")));
+                return st;
+            }
+            Err(_) => {}
+        }
+    }
     let tc = guarded(|| pipeline::typecheck_with_packages(path, src));
     let (tast, genv) = match tc {
         Err(m) => {
@@ -327,6 +347,10 @@ pub fn main(args: &util::Args) {
         show_file(&args.rest[1]);
         return;
     }
+    if args.rest.first().map(|s| s.as_str()) == Some("traits") {
+        debug_traits(&args.rest[1]);
+        return;
+    }
     if args.rest.first().map(|s| s.as_str()) == Some("one") {
         let path = std::path::PathBuf::from(&args.rest[1]);
         let src = std::fs::read_to_string(&path).expect("read");
@@ -589,4 +613,18 @@ pub fn gen_cfg(i: usize) -> crate::progen::Cfg {
 
 pub fn stream_tag(cfg: &crate::progen::Cfg) -> String {
     format!("{}", if cfg.closure_flows { ":cf" } else { "" })
+}
+
+#[allow(dead_code)]
+pub fn debug_traits(path: &str) {
+    let src = std::fs::read_to_string(path).unwrap();
+    let p = std::path::PathBuf::from(path);
+    if let Ok(Ok((_, genv, _))) = guarded(|| pipeline::typecheck_with_packages(&p, &src)) {
+        for (k, v) in genv.trait_env.trait_defs.iter() {
+            println!("{} {:?}", k, v);
+        }
+        for (k, v) in genv.value_env.funcs.iter().take(0) {
+            println!("{} {:?}", k, v);
+        }
+    }
 }
